@@ -298,3 +298,83 @@ Proof.
     rewrite Hord2 in Hnd. rewrite <- app_assoc in Hnd. cbn [app] in Hnd.
     apply NoDup_remove_2 in Hnd. apply Hnd. apply in_or_app. right. apply in_or_app. right. right. exact Hlater.
 Qed.
+
+(* ---------------------------------------------------------------- 4. the heads conjunct of spec_C09 on the model's output *)
+
+Definition obs_list (bs : list batch) : list (list N * list N) :=
+  map (fun b => (map se_id (b_changes b), b_heads b)) bs.
+
+Lemma list_eqb_same : forall l, list_eqb l l = true.
+Proof. induction l as [|a r IH]; [reflexivity|]. cbn [list_eqb]. rewrite N.eqb_refl, IH. reflexivity. Qed.
+
+Lemma ids_before_none : forall v, ids_before None v = map se_id v.
+Proof. induction v as [|e r IH]; [reflexivity|]. cbn [ids_before map]. rewrite IH. reflexivity. Qed.
+
+Lemma ids_before_some : forall P e r, ~ In (se_id e) (map se_id P) ->
+  ids_before (Some (se_id e)) (P ++ e :: r) = map se_id P.
+Proof.
+  induction P as [|a P' IH]; intros e r Hn.
+  - cbn [app ids_before map]. rewrite N.eqb_refl. reflexivity.
+  - cbn [app ids_before map]. destruct (N.eqb (se_id a) (se_id e)) eqn:E.
+    + exfalso. apply N.eqb_eq in E. apply Hn. left. exact E.
+    + rewrite IH; [reflexivity|]. intro H. apply Hn. right. exact H.
+Qed.
+
+Lemma find_all_agree : forall G P, (forall e, In e P -> find_change G (se_id e) = Some (se_ch e)) ->
+  find_all G (map se_id P) = map se_ch P.
+Proof.
+  intros G P. induction P as [|a r IH]; intros H; [reflexivity|]. cbn [map find_all].
+  rewrite (H a (or_introl eq_refl)). rewrite IH; [reflexivity|]. intros e He. apply H. right. exact He.
+Qed.
+
+Lemma heads_trace_cons_inv : forall rem view pre b bs,
+  heads_trace rem view pre (b :: bs) ->
+  exists used rest, view = (pre ++ used) ++ rest /\ b_changes b = nonrem rem used.
+Proof. intros rem view pre b bs H. inversion H; subst. eauto. Qed.
+
+(* on a heads_trace the executable heads conjunct of spec_C09 holds, for every DAG G that agrees with the stored range *)
+Theorem heads_trace_heads_ok : forall G rem view,
+  NoDup (map se_id view) ->
+  (forall e, In e view -> find_change G (se_id e) = Some (se_ch e)) ->
+  forall pre bs, heads_trace rem view pre bs -> Forall (fun b => b_changes b <> []) bs ->
+  heads_ok G view (obs_list bs) = true.
+Proof.
+  intros G rem view Hnd HG pre bs Ht. induction Ht as [pre|pre used rest b bs Hv Hb Hh Hm Ht IH]; intros Hne; [reflexivity|].
+  inversion Hne as [|x xs Hbne Hne']; subst x xs.
+  cbn [obs_list map heads_ok]. fold (obs_list bs). rewrite (IH Hne'), andb_true_r.
+  assert (Hsub : forall e, In e (pre ++ used) -> find_change G (se_id e) = Some (se_ch e)).
+  { intros e He. apply HG. rewrite Hv. apply in_or_app. left. exact He. }
+  destruct bs as [|b' bs'].
+  - cbn [obs_list map]. rewrite ids_before_none. rewrite Hm, app_nil_r in Hv.
+    rewrite Hv, (find_all_agree G _ Hsub), Hh. apply list_eqb_same.
+  - destruct Hm as [e [r [Hrest Hem]]].
+    assert (Hfirst : first_id (map se_id (b_changes b')) = Some (se_id e)).
+    { destruct (heads_trace_cons_inv _ _ _ _ _ Ht) as [used' [rest' [Hv' Hb']]].
+      inversion Hne' as [|x xs Hb'ne Hxs]; subst x xs.
+      rewrite Hv, Hrest in Hv'. rewrite <- (app_assoc (pre ++ used) used' rest') in Hv'. apply app_inv_head in Hv'.
+      destruct used' as [|u us].
+      - exfalso. apply Hb'ne. rewrite Hb'. reflexivity.
+      - cbn [app] in Hv'. inversion Hv' as [[Hu Hus]]. subst u. rewrite Hb'. cbn [nonrem filter]. rewrite Hem. reflexivity. }
+    cbn [obs_list map fst]. rewrite Hfirst.
+    assert (Hnin : ~ In (se_id e) (map se_id (pre ++ used))).
+    { rewrite Hv, Hrest, map_app in Hnd. cbn [map] in Hnd. apply NoDup_remove_2 in Hnd.
+      intro H. apply Hnd. apply in_or_app. left. exact H. }
+    rewrite Hv, Hrest, (ids_before_some _ e r Hnin), (find_all_agree G _ Hsub), Hh. apply list_eqb_same.
+Qed.
+
+(* the heads conjunct of spec_C09 holds of every response of the model (hypotheses of respond_heads_childless, and a DAG
+   that agrees with the stored range) *)
+Corollary respond_heads_ok : forall G sigma ourPath theirPath theirHeads ms bs cs,
+  respond sigma ourPath theirPath theirHeads ms = Some bs ->
+  choose_snapshot ourPath theirPath = Some cs ->
+  NoDup (map se_id (from_id cs sigma)) -> lin_ext (from_id cs sigma) ->
+  (forall e, In e (from_id cs sigma) -> ~ In (se_id e) (cprev (se_ch e))) ->
+  (forall e, In e (from_id cs sigma) -> find_change G (se_id e) = Some (se_ch e)) ->
+  heads_ok G (from_id cs sigma) (obs_list bs) = true.
+Proof.
+  intros G sigma ourPath theirPath theirHeads ms bs cs Hr Hcs Hnd Hlin Hself HG.
+  apply (heads_trace_heads_ok G (removed_of sigma cs theirHeads) (from_id cs sigma) Hnd HG [] bs).
+  - apply (respond_heads_childless sigma ourPath theirPath theirHeads ms bs cs); assumption.
+  - destruct (respond_exact _ _ _ _ _ _ Hr) as [cs' [_ [_ Hall]]].
+    apply Forall_impl with (2 := Hall). intros b [_ Hb]. exact Hb.
+Qed.
